@@ -213,3 +213,37 @@ def entry_producer(F, ph, rec_suffix="VolFile::IndexEntry", container="indexEntr
                     sub = {("var", p["n"], p["d"]): ph.term(x) for p, x in zip(h.params, an.get("args", []))}
                     return {"host": h, "ent": rv, "use": rets[0]["id"], "push": pb, "subst": sub}
     return None
+
+
+def on_every_returning_path(fn, node_ids):
+    """True iff every path from the entry of fn to its normal exit executes at least one of the given nodes
+    (a forward must-analysis over the CFG of one flag; throwing paths do not count as exits)."""
+    from .flow import CFG
+    g = CFG(fn)
+    ids = set(node_ids)
+
+    def transfer(b, st):
+        for e in g.blocks[b]["elems"]:
+            nid = e if isinstance(e, int) else e.get("init")
+            if nid in ids or (ids & set(fn.subtree(nid)) if isinstance(nid, int) and fn.n(nid)["k"] in ("ExprWithCleanups",) else False):
+                st = True
+        return st
+    IN, OUT = {g.entry: False}, {}
+    changed, rounds = True, 0
+    while changed and rounds < 60:
+        changed = False
+        rounds += 1
+        for b in g.order:
+            if b == g.entry:
+                new_in = False
+            else:
+                ps = [p for p in g.pred[b] if p in OUT and p not in g.throws]
+                if not ps:
+                    continue
+                new_in = all(OUT[p] for p in ps)
+            o = transfer(b, new_in)
+            if IN.get(b) != new_in or OUT.get(b) != o:
+                IN[b], OUT[b] = new_in, o
+                changed = True
+    exits = [p for p in g.pred[g.exit] if p in OUT and p not in g.throws]
+    return bool(exits) and all(OUT[p] for p in exits)
